@@ -101,23 +101,27 @@ Proof. intros H. apply existsb_exists in H as [x [Hx E]]. apply Nat.eqb_eq in E.
 Lemma call_restores p o st :
   (forall s, inv s -> snd (p s) = s) -> inv st -> snd (call_with ismodel protected_body p o st) = st.
 Proof.
-  intros Hp Hinv. destruct st as [q sn]. unfold call_with, protected_body. cbn [do_steps do_step quoting seen].
+  intros Hp Hinv. destruct st as [q sn]. unfold call_with, protected_body.
+  cbn [do_steps]. unfold do_step at 1. cbn [quoting seen].
   destruct (negb q && ismodel o) eqn:Es.
   - (* this call sets _quoting *)
     apply andb_prop in Es as [Hq Hm]. apply negb_true_iff in Hq. subst q.
-    cbn [quoting seen]. destruct (existsb (Nat.eqb o) sn) eqn:Eseen.
+    unfold do_step at 1. cbn [quoting seen]. destruct (existsb (Nat.eqb o) sn) eqn:Eseen.
     + (* o is being printed and is a model: then _quoting was set already *)
       exfalso. specialize (Hinv o (existsb_in _ _ Eseen) Hm). cbn in Hinv. discriminate.
-    + cbn [quoting seen].
+    + unfold do_step at 1. cbn [quoting seen].
       assert (Hi : inv {| quoting := true; seen := o :: sn |}) by (intros i _ _; reflexivity).
-      pose proof (Hp _ Hi) as E. destruct (p {| quoting := true; seen := o :: sn |}) as [r st']. cbn [snd] in E. subst st'.
+      pose proof (Hp _ Hi) as E. unfold do_step at 1.
+      destruct (p {| quoting := true; seen := o :: sn |}) as [r st']. cbn [snd] in E. subst st'.
       destruct r; cbn [do_steps do_step quoting seen snd]; rewrite remove_id_fresh by exact Eseen; reflexivity.
-  - destruct (existsb (Nat.eqb o) sn) eqn:Eseen; [reflexivity|]. cbn [quoting seen].
+  - unfold do_step at 1. cbn [quoting seen]. destruct (existsb (Nat.eqb o) sn) eqn:Eseen; [reflexivity|].
+    unfold do_step at 1. cbn [quoting seen].
     assert (Hi : inv {| quoting := q; seen := o :: sn |}).
     { intros i [<-|Hin] Hm; cbn [quoting].
       - rewrite Hm, andb_true_r in Es. apply negb_false_iff in Es. exact Es.
       - apply (Hinv i Hin Hm). }
-    pose proof (Hp _ Hi) as E. destruct (p {| quoting := q; seen := o :: sn |}) as [r st']. cbn [snd] in E. subst st'.
+    pose proof (Hp _ Hi) as E. unfold do_step at 1.
+    destruct (p {| quoting := q; seen := o :: sn |}) as [r st']. cbn [snd] in E. subst st'.
     destruct r; cbn [do_steps do_step quoting seen snd]; rewrite remove_id_fresh by exact Eseen; reflexivity.
 Qed.
 
@@ -142,8 +146,8 @@ Proof. apply repr_state_restored. intros i []. Qed.
 (* without the protection the state leaks: the same steps in a straight line, a printer that raises *)
 Example straight_line_leaks :
   snd (hy_repr_call (fun _ => true) (Straight [StartQuoting; ReturnIfSeen; AddSeen; CallPrinter; DiscardSeen; ResetQuoting])
-                    7 (Done true) {| quoting := false; seen := [] |})
-  = {| quoting := true; seen := [7] |}.
+                    7%nat (Done true) {| quoting := false; seen := [] |})
+  = {| quoting := true; seen := [7%nat] |}.
 Proof. reflexivity. Qed.
 
 End Restore.
